@@ -78,10 +78,11 @@ theorem barrier_every_patch_partial (T idle : Int) (pre mid post : List Step) (k
     (hran : (outcomeAt T (exec T Cfg.init (pre ++ .event k :: mid)) i).handlers = some t) :
     ∃ (a : List Step) (j : Iter) (q : Ver) (b : List Step),
       pre ++ .event k :: mid = a ++ .event j :: b ∧ pre.length ≤ a.length ∧ j.patched = some q ∧
+      (j = k ∧ q = p ∨ Step.event j ∈ mid) ∧ (∀ st ∈ b, st ∈ mid) ∧
       (∀ st ∈ b, st.patched = none) ∧ k.tp ≤ j.tp ∧
       (some q ∈ j.ver :: (b.map Step.ver ++ [i.ver]) ∨ j.tp + T ≤ t) := by
   rcases last_patch_split mid with hnone | ⟨a', x, q, b, hmid, hx, hb⟩
-  · exact ⟨pre, k, p, mid, rfl, Nat.le_refl _, hk, hnone, Int.le_refl _,
+  · exact ⟨pre, k, p, mid, rfl, Nat.le_refl _, hk, Or.inl ⟨rfl, rfl⟩, fun _ h => h, hnone, Int.le_refl _,
       barrier_partial T idle pre mid post k i p t hwf hk hnone hran⟩
   · have hlist : pre ++ .event k :: mid = (pre ++ .event k :: a') ++ .event x :: b := by
       rw [hmid]; simp
@@ -105,7 +106,8 @@ theorem barrier_every_patch_partial (T idle : Int) (pre mid post : List Step) (k
       have hm : k.tret ≤ (exec T (next T (exec T Cfg.init pre) (.event k)) a').clock :=
         clock_mono_exec (T := T) (idle := idle) a' _ hwfa
       omega
-    refine ⟨pre ++ .event k :: a', x, q, b, hlist, ?_, hx, hb, htp, hb'⟩
+    refine ⟨pre ++ .event k :: a', x, q, b, hlist, ?_, hx, Or.inr (by rw [hmid]; simp),
+      (fun st hst => by rw [hmid]; exact List.mem_append_right _ (List.mem_cons_of_mem _ hst)), hb, htp, hb'⟩
     simp only [List.length_append, List.length_cons]; omega
 
 /-- With the per-object order of the watch stream (versions dequeued earlier are not newer than the
@@ -133,23 +135,52 @@ theorem barrier_view_partial (T idle : Int) (pre mid post : List Step) (k i : It
         exact Nat.le_refl _
   · exact Or.inr h
 
-/-- **Not delayed.** The processor is a sequence of stages run against one clock (`runStages`); only the
-    barrier stage reads `consistency_time`. For ANY stage order in which the barrier comes after a block
-    `lows` of other stages: everything `lows` does — which stages were entered, WHEN, and the clock they
-    leave behind — is the same whatever the worker expects (`dl`, `dl'` arbitrary), i.e. the same as with
-    no barrier at all; and that log stays the beginning of the iteration's final log. The statement is
-    about the computed output: it fails for an order that sleeps first (`barrier_first_delays_witness`). -/
-theorem not_delayed (lows rest : List Stage) (hl : Stage.barrier ∉ lows) (dl dl' : Option Int) (it : Iter) :
-    runStages lows dl it (PS.start it) = runStages lows dl' it (PS.start it) ∧
-    ∃ tail, (processIn (lows ++ Stage.barrier :: rest) dl it).low
-              = (runStages lows none it (PS.start it)).low ++ tail := by
-  refine ⟨runStages_indep dl dl' it lows _ hl, ?_⟩
-  obtain ⟨tail, ht⟩ := runStages_low_prefix dl it (Stage.barrier :: rest) (runStages lows dl it (PS.start it))
-  refine ⟨tail, ?_⟩
-  show (runStages (lows ++ Stage.barrier :: rest) dl it (PS.start it)).low = _
-  rw [runStages_append, ht, runStages_indep dl none it lows _ hl]
+/-- … and for EVERY earlier worker patch, also when later iterations patched again — including later
+    no-op patches, which `barrier_every_patch_partial` alone lets "discharge" an earlier real one through
+    their own event's version. With the order of the stream (`hordk`, `hord`: nothing dequeued before is
+    newer than the view `v` at hand) and of the server's answers (`hmono`: a later PATCH of the worker is
+    answered with a version not below an earlier answer — a no-op is answered with the CURRENT version),
+    the view at hand is not older than `k`'s patch, or `k`'s timeout has elapsed. -/
+theorem barrier_every_patch_view_partial (T idle : Int) (pre mid post : List Step) (k i : Iter) (p v : Ver) (t : Int)
+    (hwf : wf T idle Cfg.init (pre ++ .event k :: (mid ++ .event i :: post)) = true)
+    (hk : k.patched = some p)
+    (hv : i.ver = some v)
+    (hordk : ∀ u, k.ver = some u → u.n ≤ v.n)
+    (hord : ∀ st ∈ mid, ∀ u, st.ver = some u → u.n ≤ v.n)
+    (hmono : ∀ st ∈ mid, ∀ q, st.patched = some q → p.n ≤ q.n)
+    (hran : (outcomeAt T (exec T Cfg.init (pre ++ .event k :: mid)) i).handlers = some t) :
+    p.n ≤ v.n ∨ k.tp + T ≤ t := by
+  obtain ⟨a, j, q, b, _, _, hj, hwho, hbmid, _, htp, hconc⟩ :=
+    barrier_every_patch_partial T idle pre mid post k i p t hwf hk hran
+  rcases hconc with hmem | ht
+  · left
+    have hpq : p.n ≤ q.n := by
+      rcases hwho with ⟨_, hqp⟩ | hjm
+      · rw [hqp]; exact Nat.le_refl _
+      · exact hmono _ hjm q hj
+    have hqv : q.n ≤ v.n := by
+      rcases List.mem_cons.mp hmem with h | h
+      · rcases hwho with ⟨hjk, _⟩ | hjm
+        · rw [hjk] at h; exact hordk q h.symm
+        · exact hord _ hjm q h.symm
+      · rcases List.mem_append.mp h with h | h
+        · obtain ⟨st, hst, hver⟩ := List.mem_map.mp h
+          exact hord st (hbmid st hst) q hver
+        · simp only [List.mem_singleton] at h
+          rw [hv] at h; cases h; exact Nat.le_refl _
+    exact Nat.le_trans hpq hqv
+  · right; omega
 
-/-- … instantiated for kopf's order (`kopfOrder = [indexing, watching, spawning] ++ barrier :: [changing]`):
+-- "Raw-event handlers, indexing, daemons and timers are not delayed by this barrier." In the model this is a
+-- STRUCTURAL fact — `stepStage` reads `consistency_time` only in the barrier stage, which comes after the
+-- low-level stages in `kopfOrder` (`Lemmas: stages_before_barrier_independent`, and its failure for a
+-- sleep-first order, `barrier_first_delays_witness`); it says that the model has this order, not that the
+-- code has. That the CODE has it is evidence of the S-tie (when the index and on.event handlers really
+-- started, per iteration) and of the oracle (raw handlers/indexers at the dequeue instant also in held-back
+-- iterations, timers on schedule during barrier sleeps, daemons spawned in the first iteration). What the
+-- theorem below adds over the structure: the sleep begins only after them, and a wake-up ends it at once.
+
+/-- **Not delayed (kopf's order,** `kopfOrder = [indexing, watching, spawning] ++ barrier :: [changing]`**):**
     indexing and the raw-event handlers start when the event is dequeued, daemons/timers are spawned as
     soon as the raw-event handlers are done (`dur` is what those handlers themselves take), for every
     `consistency_time`; the barrier sleep, if any, begins only then; and a further arrival (or the exiting
@@ -179,16 +210,6 @@ theorem not_delayed_kopf (dl : Option Int) (it : Iter) :
     split at hs
     · cases hs; rw [hw]; exact sleepUntil_woken hlt
     · cases hs
-
-/-- The same statement is false for a processor that sleeps first (the mutant "barrier before the
-    raw-event handlers"): its low-level stages start at the deadline instead of at the dequeue. -/
-theorem barrier_first_delays_witness :
-    ∃ (it : Iter) (dl : Option Int),
-      (processIn [Stage.barrier, .indexing, .watching, .spawning, .changing] dl it).low
-        ≠ (processIn [Stage.barrier, .indexing, .watching, .spawning, .changing] none it).low :=
-  ⟨{ ver := some ⟨104, false⟩, now := 110, dur := 0, pressure := false, wake := none, lag := 0, gone := false,
-     required := true, patchInit := true, patchMid := true, patched := none, tp := 423, tret := 423 },
-   some 423, by decide⟩
 
 /-- **An interrupted sleep is never consistency.** Whatever ends the barrier sleep before its
     deadline — a new event, or the pressure raised by the exiting watcher together with its
@@ -259,6 +280,29 @@ theorem never_arrives (s : WState) (e : Ver) (v : Option Ver) (he : s.expected =
   by_cases h : v = some e
   · have := hv e h; rw [hn] at this; cases this
   · simp [h]
+
+/-- A worker that ALSO drops its expectation whenever the event comes from a (re-)listing ("listed objects
+    are read from the cluster directly") — the seeded change C14c. -/
+def arriveListedClears (s : WState) (it : Iter) : WState :=
+  if it.listed then WState.init else arrive s it.ver
+
+/-- **A listed view is not consistency.** Iteration `k` (event 105) runs a slow handler; a "410 Gone" makes the
+    watcher re-list meanwhile: the listed object (still 105) is queued; then `k` PATCHes (106 at 102). The
+    listed event is dequeued at 110. The worker of the model (= the code) still expects 106 and holds the
+    change handlers back; a worker that trusts listed events would run them on 105 < 106, 8 ticks after its
+    own patch with `T = 320`. So `barrier_partial` really depends on `arrive` ignoring the event's type. -/
+theorem listed_view_is_not_consistency_witness :
+    ∃ (k i : Iter) (p v : Ver) (t : Int),
+      i.listed = true ∧ k.patched = some p ∧ i.ver = some v ∧ v.n < p.n ∧
+      wf 320 320 Cfg.init [.event k, .event i] = true ∧
+      (outcomeAt 320 (exec 320 Cfg.init [.event k]) i).held = true ∧                 -- the code: held back
+      (process (arriveListedClears (exec 320 Cfg.init [.event k]).s i).deadline i).handlers = some t ∧
+      ¬ (k.tp + 320 ≤ t) ∧ some p ∉ [k.ver, i.ver] :=                                  -- the variant: too early
+  ⟨{ ver := some ⟨105, false⟩, now := 100, dur := 0, pressure := false, wake := none, lag := 0, gone := false,
+     required := true, patchInit := true, patchMid := true, patched := some ⟨106, false⟩, tp := 102, tret := 103 },
+   { ver := some ⟨105, false⟩, now := 110, dur := 0, pressure := true, wake := none, lag := 0, gone := false,
+     required := true, patchInit := true, patchMid := true, patched := none, tp := 110, tret := 110, listed := true },
+   ⟨106, false⟩, ⟨105, false⟩, 110, rfl, rfl, rfl, by decide, by decide, by decide, by decide, by decide, by decide⟩
 
 /-- **A PATCH that changed nothing arms nothing** (fix 460c956). The server answers a no-op PATCH with the
     version it already had — the one of the event being processed. The worker keeps what the arrival
